@@ -1,6 +1,6 @@
 (* C05 — Storage physics: level within [0, size], ends at end level, rates within rate x dt. *)
 From Coq Require Import QArith List String Bool.
-From EAO Require Import Num LP Mapping Grid Assets StorageProofs.
+From EAO Require Import Num LP Mapping Grid Assets StorageProofs Build.
 Import ListNotations.
 Open Scope Q_scope.
 
@@ -23,6 +23,27 @@ Theorem C05_storage_physics :
     else - (sp_cap_in p * nth t (rg_dt rg) 0) <= nth t x 0 /\ nth t x 0 <= sp_cap_out p * nth t (rg_dt rg) 0).
 Proof. exact storage_feasible_physics. Qed.
 Print Assumptions C05_storage_physics.
+
+(* A storage the constructor accepts has its end level within [0, size] (repo fix efdd1c0; before it an end level
+   above the size was accepted and the last level row forced the level above the size): then the level is within
+   [0, size] at EVERY step, the last one included. *)
+Theorem C05_level_within_size_at_every_step :
+  forall g rg p a x,
+  storage_ctor_ok p = true ->
+  storage g rg p = Some a -> sp_no_simult p = false -> sp_max_dur p = None -> rg_T rg <> 0%nat ->
+  List.length (rg_dt rg) = rg_T rg ->
+  feasible (ap_lp a) x ->
+  forall t, (t < rg_T rg)%nat ->
+    0 <= level p (rg_T rg) (rg_dt rg) x t /\ level p (rg_T rg) (rg_dt rg) x t <= sp_size p.
+Proof. exact storage_feasible_level_everywhere. Qed.
+Print Assumptions C05_level_within_size_at_every_step.
+
+(* the model's storage builder (compared with the implementation case by case) yields a problem only for such a storage *)
+Theorem C05_builder_refuses_end_level_outside_size :
+  forall g rg p per a, build_storage g rg p per = Some a ->
+  sp_start p <= sp_size p /\ 0 <= sp_end p /\ sp_end p <= sp_size p.
+Proof. exact build_storage_some_levels_ok. Qed.
+Print Assumptions C05_builder_refuses_end_level_outside_size.
 
 (* the same statement on the emitted rows, for any n and any step lengths *)
 Theorem C05_level_rows :
@@ -58,3 +79,6 @@ Proof.
   - vm_compute. reflexivity.
   - vm_compute. reflexivity.
 Qed.
+Example C05_ctor_nonvacuous : storage_ctor_ok exp = true /\
+  storage_ctor_ok (Build_storage_p "s" ["n"]%string 4 2 2 3 (9#2) 0 0 0 1 0 None false None) = false.
+Proof. split; vm_compute; reflexivity. Qed.
